@@ -144,6 +144,13 @@ impl Gen {
         self.node.as_ref().unwrap()
     }
 
+    fn proc(&self, b: &BlockView) -> Result<bool, String> {
+        match self.node().process_timed(b) {
+            Some(r) => r.map_err(|e| format!("{e}")),
+            None => panic!("the generating node stopped answering (a service thread panicked?)"),
+        }
+    }
+
     fn register_tx(&mut self, tx: &TransactionView) -> u64 {
         self.wtxs.entry(tx.witness_hash()).or_insert_with(|| tx.clone());
         if let Some(i) = self.tx_id.get(&tx.hash()) {
@@ -347,7 +354,7 @@ impl Gen {
             self.steps.push(Step::Block { id, valid: false, why });
             self.jops.push(json!({"invalid_block": {"block": id, "height": bad.number(), "why": why}}));
             note_history(&self.jops);
-            if self.node().process(&bad).is_ok() {
+            if self.proc(&bad).is_ok() {
                 return Err(format!("the generating node accepted a block that {why}"));
             }
         }
@@ -366,7 +373,7 @@ impl Gen {
         self.steps.push(Step::Block { id, valid: true, why: "extension" });
         self.jops.push(json!({"extend": {"block": id, "height": b.number(), "txs": b.transactions().len() - 1, "uncles": b.uncles().into_iter().count()}}));
         note_history(&self.jops);
-        self.node().process(&b).map_err(|e| format!("a block built from the node's own snapshot was rejected: {e}"))?;
+        self.proc(&b).map_err(|e| format!("a block built from the node's own snapshot was rejected: {e}"))?;
         bump(&mut self.stats, "blocks_extended");
         Ok(())
     }
@@ -389,7 +396,7 @@ impl Gen {
             self.steps.push(Step::Block { id, valid: true, why: "fork" });
             self.jops.push(json!({"fork_block": {"block": id, "from_height": from, "height": b.number(), "txs": b.transactions().len() - 1}}));
             note_history(&self.jops);
-            self.node().process(&b).map_err(|e| format!("a valid fork block was rejected: {e}"))?;
+            self.proc(&b).map_err(|e| format!("a valid fork block was rejected: {e}"))?;
             if self.main_chain() != before && !switched {
                 switched = true;
                 bump(&mut self.stats, "reorgs");
